@@ -2,6 +2,7 @@ package builder
 
 import (
 	"go/token"
+	"go/types"
 
 	"github.com/dave/jennifer/jen"
 	"github.com/jmattheis/goverter/xtype"
@@ -12,7 +13,8 @@ type SkipCopy struct{}
 
 // Matches returns true, if the builder can create handle the given types.
 func (*SkipCopy) Matches(ctx *MethodContext, source, target *xtype.Type) bool {
-	return ctx.Conf.SkipCopySameType && source.String == target.String
+	// byte/uint8 and rune/int32 are identical types with different names
+	return ctx.Conf.SkipCopySameType && (source.String == target.String || types.Identical(source.T, target.T))
 }
 
 // Build creates conversion source code for the given source and target type.
